@@ -10,3 +10,13 @@ META["C18"] = {
     "note": "Trusts the harness's own interval/step-function evaluators and protobuf's durationpb/timestamppb conversions; magnitudes are small integers so float32 sums are exact; only the last segment may be infinite (documented precondition); degenerate periods checked for symmetry/no-panic only.",
     "technique": "bounded-exhaustive enumeration + rapid property-based testing against an independent step-function / interval oracle",
 }
+META["C05"] = {
+    "text": ("Property-based testing of masked writes: rapid draws (stored, written, update mask, writable mask, extra-writable, all-writable, reset mask) "
+             "tuples over the all-field-kinds message and 10 trait messages (masks biased to populated paths; duplicates, parent+child, masks broader than / "
+             "below / disjoint from the writable set, corrupted masks) and runs each through FieldUpdater, Value.Set and Collection.Update, plus multi-write "
+             "sequences on one resource. The oracle is an independent protoreflect implementation of FieldMask update semantics together with a frame "
+             "condition (every changed leaf must lie under updateMask∩writable or the reset mask) and the rejection rules. Exploration level: the input space "
+             "is unbounded, the harness samples it densely near the documented corner cases and reports class counts."),
+    "note": "Trusts the harness reference (lib/refmask.go) and protobuf-go reflection/Equal/Clone; update masks strictly broader than the writable fields are accepted-with-frame-intact or rejected (both allowed); presence of empty intermediate messages on mask paths is ignored; negative zero floats are not generated (protobuf-go Clone drops them).",
+    "technique": "rapid property-based testing against an independent reference implementation of masked update + frame-condition invariant",
+}
